@@ -144,6 +144,37 @@ def write_files(case):
             os.replace(pth + ".tmp%d" % os.getpid(), pth)
 
 
+def live_biases(case):
+    """the bias parameters in force at the measured steps: those of the configuration the state was loaded into"""
+    rs = case.get("restart")
+    if not (rs and "biases" in rs):
+        return case.get("biases", [])
+    # (ABMD writes forceConstant, stoppingValue and decreasing into its state and reads them back: the loaded values
+    # override the new configuration)
+    return [a if a["type"] == "abmd" else b for a, b in zip(case["biases"], rs["biases"])]
+
+
+def restart_config_text(case):
+    """the configuration of the fresh instance that loads the saved state: same variables, CHANGED legal bias options"""
+    rs = case["restart"]
+    if "raw_config" in rs:
+        return rs["raw_config"].replace("@FILES@", files_dir())
+    c2 = dict(case)
+    c2["biases"] = rs["biases"]
+    c2.pop("restart", None)
+    return config_text(c2)
+
+
+_state_counter = [0]
+_state_lock = __import__("threading").Lock()
+
+
+def state_prefix():
+    with _state_lock:
+        _state_counter[0] += 1
+        return os.path.join(files_dir(), "state_%d_%d" % (os.getpid(), _state_counter[0]))
+
+
 def config_text(case):
     if "raw_config" in case:
         return case["raw_config"].replace("@FILES@", files_dir())
@@ -238,7 +269,18 @@ def n_event_steps(case):
 
 
 def npre_steps(case):
-    return len(case.get("presteps", [])) + n_event_steps(case)
+    # (restart: one step at the base positions is run before the state is saved, so that the state holds the values of the
+    # variables at the positions the fresh instance starts from -- a state whose values differ from the recomputed ones by
+    # more than the variable's width is refused)
+    return len(case.get("presteps", [])) + n_event_steps(case) + (1 if case.get("restart") else 0)
+
+
+def pre_values(case, res, with_warmup):
+    """variable values printed at the history steps (metadynamics: the hill sits where the last pre-step was; ABMD: the
+    reference also follows the warm-up step of a restart)"""
+    a = n_event_steps(case)
+    b = a + len(case.get("presteps", [])) + (1 if with_warmup and case.get("restart") else 0)
+    return [st["cv"] for st in res["steps"][a:b]]
 
 
 def fd_coords(case):
@@ -280,6 +322,13 @@ def scenario(case, tag, with_fd=True):
         L.append("step")
         for i, (m, q, p) in enumerate(at):
             L.append("pos %d %s %s %s" % (i + 1, hx(p[0]), hx(p[1]), hx(p[2])))
+    if case.get("restart"):
+        # the state (hills with their own widths and weights, the ABMD reference, ...) is saved, a fresh instance is
+        # configured with changed options, and the state is loaded into it: the measured steps run there
+        pfx = state_prefix()
+        L += ["show cv 1 bias 0 atomf 0", "step"]
+        L += ["save %s %s.colvars.state" % (case["restart"].get("fmt", "text"), pfx), "fresh", "config EOF", restart_config_text(case), "EOF",
+              "load %s" % pfx]
     # moving restraints: every measured step is run at the same step number, where centres / force constant are frozen
     fs = ["setstep %d" % case["fd_setstep"]] if case.get("fd_setstep") is not None else []
     L += ["show cv 1 bias 1 atomf 1 af 1"] + fs + ["step", "show cv 1 bias 0 atomf 0 af 0"]
@@ -404,11 +453,15 @@ def model_line(case, res=None):
             t.append(hx(v["period"] if v.get("period") else PERIODIC.get(k, 0.0)))      # the component's own period
     t.append(str(len(case["biases"])))
     pre = []
+    pre_all = []
     if res is not None:
-        pre = [st["cv"] for st in res["steps"][n_event_steps(case):npre_steps(case)]]
-    for b in case["biases"]:
+        pre = pre_values(case, res, False)
+        pre_all = pre_values(case, res, True)
+    for jb, b in enumerate(case["biases"]):
         if b["type"] == "meta":
-            # one hill, deposited at the last pre-step (step 1000): centre = the variable values printed there
+            # one hill, deposited at the last pre-step (step 1000): centre = the variable values printed there; the hill keeps
+            # the weight and the widths it was deposited with (those of the configuration of the FIRST instance), also after
+            # its state was loaded into an instance configured with other widths
             terms = []
             for (i, sg) in b["terms"]:
                 c = pre[-1]["v%d" % i]
@@ -417,6 +470,7 @@ def model_line(case, res=None):
             for (j, cj, sg) in terms:
                 t += [str(j), hx(cj), hx(sg)]
             continue
+        b = live_biases(case)[jb]       # every other parameter is that of the instance the measured steps run in
         if b["type"] == "hist":
             vs = [j for (i, _) in b["terms"] for j in vmap[i]]
             # colvarbias_restraint_histogram: init normalises the reference; update uses norm = 1/(sqrt(2 pi) sigma n)
@@ -432,7 +486,7 @@ def model_line(case, res=None):
             continue
         if b["type"] == "abmd":
             i = b["terms"][0][0]
-            ref = abmd_ref(b, [p["v%d" % i][0] for p in pre])
+            ref = abmd_ref(b, [p["v%d" % i][0] for p in pre_all])
             t += ["abmd", hx(b["k"]), "1" if b["dec"] else "0", str(vmap[i][0]), hx(ref)]
             continue
         lam = None
@@ -947,9 +1001,11 @@ def gen_case(r, kinds, opts):
             b = {"type": "abmd", "k": r.choice([1.0, 2.0, 0.5, 10.0]), "dec": dec, "stop": -1.0e6 if dec else 1.0e6, "terms": [(i, None)]}
             case["presteps"] = [disp()]
         case["biases"][r.randrange(len(case["biases"]))] = b
-    if opts.get("events") and r.random() < opts["events"]:
+    if opts.get("restart") and r.random() < (opts["restart"] * (4.0 if case.get("presteps") else 1.0)):
+        add_restart(r, case)
+    if opts.get("events") and r.random() < opts["events"] and not case.get("restart"):
         add_history(r, case, n_atoms, opts)
-    if opts.get("moving") and r.random() < opts["moving"] and not case.get("presteps"):
+    if opts.get("moving") and r.random() < opts["moving"] and not case.get("presteps") and not case.get("restart"):
         # moving restraints, evaluated at a fixed step number S <= targetNumSteps (dyadic lambda = S/N)
         N = r.choice([1024, 512])
         for b in case["biases"]:
@@ -971,6 +1027,30 @@ def gen_case(r, kinds, opts):
             if "fd_setstep" not in case:
                 case["fd_setstep"] = r.choice([N // 4, N // 2, 3 * N // 4, N]) - 1      # lambda = (S + 1)/N is dyadic
     return case
+
+
+def add_restart(r, case):
+    """state save -> fresh instance with CHANGED legal options -> load -> measured steps.  What a bias carries across:
+    metadynamics hills keep their own weight and widths; ABMD keeps its reference; restraints have no state, so the new
+    force constants / centres / walls apply."""
+    other = lambda x, choices: r.choice([c for c in choices if c != x] or [x])
+    B = copy.deepcopy(case["biases"])
+    for b in B:
+        if b["type"] == "meta":
+            b["W"] = other(b["W"], [1.0, 2.0, 0.5, 4.0])
+            b["terms"] = [(i, sg * r.choice([2.0, 0.5, 4.0, 0.25])) for (i, sg) in b["terms"]]
+        elif b["type"] in ("harmonic", "linear"):
+            b["k"] = other(b["k"], [1.0, 2.0, 0.5, 10.0, 3.0])
+            if b["type"] == "harmonic" and r.random() < 0.5 and not any(isinstance(t[1], (tuple, list)) and case.get("cell") for t in b["terms"]):
+                b["terms"] = [(t[0], tuple(x + V.dyadic(r, -0.5, 0.5, bits=3) for x in t[1]) if isinstance(t[1], (tuple, list)) else t[1] + V.dyadic(r, -1, 1, bits=3))
+                              for t in b["terms"]]
+        elif b["type"] == "walls":
+            b["lwk"] = other(b["lwk"], [1.0, 2.0, 4.0, 0.5]); b["uwk"] = other(b["uwk"], [1.0, 2.0, 4.0, 8.0])
+        elif b["type"] == "abmd":
+            b["k"] = other(b["k"], [1.0, 2.0, 0.5, 10.0])
+        elif b["type"] == "hist":
+            b["k"] = other(b["k"], [1.0, 10.0, 4.0])
+    case["restart"] = {"biases": B, "fmt": r.choice(["text", "binary"])}
 
 
 def add_history(r, case, n_atoms, opts):
@@ -1108,6 +1188,8 @@ def parse_vsim(out, ncases):
             cur["config"] = ln
         elif w[0] == "SCRIPT":
             cur.setdefault("script", []).append(ln.strip())
+        elif w[0] in ("SAVE", "LOAD"):
+            cur.setdefault("script", []).append(ln.strip().split(" it=")[0])
         elif w[0] == "STEP":
             cur["steps"].append({"err": ln, "cv": {}, "atomf": {}, "bias": {}})
         elif w[0] == "ENERGY" and cur["steps"]:
@@ -1217,7 +1299,10 @@ def fd_check(case, res):
                     if dx > 0.0 and max(abs(p2), abs(p3)) >= 1.0e4:      # only where the offset is huge
                         relx = max(relx, 16 * 2.0 ** -52 * max(abs(p2), abs(p3)) / dx)
         xnoise = min(relx, 1.0) * abs(rich)
-        if err > TOL_FD * scale + noise + xnoise + 0.05 * est:
+        # est = |d(h2) - d(h1)| measures how far the two difference quotients are from convergence: for a smooth energy the
+        # Richardson value is much better than that, at a kink inside the stencil (wrapped periodic value of a high power,
+        # minimum-image cut) it is not; no failure is claimed within 2 est
+        if err > TOL_FD * scale + noise + xnoise + 2.0 * est:
             if noise + xnoise > 1e-4 * scale:
                 # the rounding of the energy (or of a variable amplified by dE/dxi) swamps the difference quotient
                 return "ambiguous", "finite differences cannot resolve forces of this size (rounding noise %.3g, scale %.3g)" % (noise, scale)
@@ -1237,9 +1322,10 @@ def walls_ambiguous(case, base, res=None):
             e = base.get("bias", {}).get("b%d" % j)
             if e is None or not (abs(e) > 1e-4 * abs(b["W"])):
                 return True
+        b = live_biases(case)[j]
         if b["type"] == "abmd" and res is not None:
             i = b["terms"][0][0]
-            pre = [st["cv"] for st in res["steps"][n_event_steps(case):npre_steps(case)]]
+            pre = pre_values(case, res, True)
             x = base["cv"].get("v%d" % i)
             try:
                 ref = abmd_ref(b, [p["v%d" % i][0] for p in pre])
@@ -1261,7 +1347,7 @@ def walls_ambiguous(case, base, res=None):
 
 def signature(case):
     ks = sorted(set(c["kind"] for v in case["vars"] for c in v["cvcs"])) if "vars" in case else [case.get("name", "raw")]
-    return "fd:" + ("history:" if case.get("events") or case.get("script") else "") + ":".join(ks)
+    return "fd:" + ("history:" if case.get("events") or case.get("script") else "") + ("restart:" if case.get("restart") else "") + ":".join(ks)
 
 
 def shrink_fd(vsim, case, run_one):
@@ -1320,7 +1406,8 @@ def gen_unmodelled(r, n):
                   "center1_distanceVec", "center1_fit_distanceDir", "center1_distancePairs",
                   "rmsd_perm", "lincomb_coordNum", "lincomb_selfCoordNum", "distanceZ2_period",
                   "ev_forceNoPBC", "ev_period", "ev_distanceVec_coeff", "ev_rmsd_exp", "ev_dihedral_coeff", "ev_distancePairs_coeff",
-                  "gspathCV", "gzpathCV", "aspathCV", "azpathCV", "gspath", "gzpath", "aspath", "azpath", "scripted_vsum", "lincomb_distanceVec"]
+                  "gspathCV", "gzpathCV", "aspathCV", "azpathCV", "gspath", "gzpath", "aspath", "azpath", "scripted_vsum", "lincomb_distanceVec",
+                  "meta_nogrid_restart", "cell_meta_nogrid_restart", "opes_frozen_restart", "abmd_restart"]
     names = names + cell_names
     only = os.environ.get("C01_ONLY")          # debugging aid: restrict the sweep to kinds containing this text
     if only:
@@ -1331,6 +1418,9 @@ def gen_unmodelled(r, n):
         wrap = name.startswith("cell_")
         if wrap:
             name = name[5:]
+        rst = name.endswith("_restart")
+        if rst:
+            name = name[:-8]
         na = r.randint(6, 10)
         ids = r.sample(range(na), 4)
         others = [j for j in range(na) if j not in ids]
@@ -1597,6 +1687,17 @@ def gen_unmodelled(r, n):
                     "  distanceZ {\n    componentCoeff -1.5\n    main {\n      atomNumbers %s\n    }\n    ref {\n      atomNumbers %s\n    }\n  }\n}\n%s\nlinear {\n  colvars v0\n  centers 0.0\n  forceConstant -0.5\n}"
                     % (ids_str(ids[:2]), ids_str(oth2), ids_str(ids[2:]), ids_str(oth2), harm))
         c = raw_case(r, full_name, na, conf, touched, cell=cell)
+        if rst:
+            # state saved, fresh instance with changed legal options, state loaded (kernels / hills keep their own widths)
+            confB = conf
+            for old_, new_ in (("hillWidth 4.0", "hillWidth %r" % r.choice([2.0, 8.0])), ("hillWeight 2.0", "hillWeight 0.5"),
+                               ("gaussianSigma 0.75", "gaussianSigma %r" % r.choice([1.5, 0.375])), ("barrier 5.0", "barrier 8.0"),
+                               ("forceConstant 2.0", "forceConstant 5.0")):
+                confB = confB.replace(old_, new_)
+            if name == "meta_nogrid" and r.random() < 0.5:
+                confB = confB.replace("width 0.5", "width 1.0")
+            c["restart"] = {"raw_config": confB, "fmt": r.choice(["text", "binary"])}
+            c["restartfreq_override"] = 1001
         if script:
             c["script"] = script
         if files:
@@ -1637,6 +1738,10 @@ def gen_unmodelled(r, n):
             c["setstep"] = 999
             c["temperature"] = 300.0
             c["restartfreq"] = 100000     # OPES divides by the restart frequency (0 is the subject of C10, not of this check)
+            if c.get("restartfreq_override"):
+                # OPES writes the snapshot of its kernels taken at the last multiple of the restart frequency: the state
+                # is saved at step 1001 (two pre-steps from 999, one warm-up step), so make that step such a multiple
+                c["restartfreq"] = c.pop("restartfreq_override")
             c["presteps"] = [[(a, tuple(x + V.dyadic(r, -0.25, 0.25, bits=4) for x in c["atoms"][a][2])) for a in touched] for _ in range(2)]
         elif pre == "farther":
             # ABMD: first step with the groups farther apart sets the reference; the base step is then below it
@@ -1675,7 +1780,7 @@ def untuple(c):
 
 def compare_case(run, case, res, mline, mout):
     """tie: implementation vs model on the base step"""
-    comp = ("history:" if case.get("events") else "") + ":".join(sorted(set(c["kind"] for v in case["vars"] for c in v["cvcs"])))
+    comp = ("history:" if case.get("events") else "") + ("restart:" if case.get("restart") else "") + ":".join(sorted(set(c["kind"] for v in case["vars"] for c in v["cvcs"])))
     if res is None or res.get("config") is None or "err=ok" not in res["config"]:
         run.mismatch(comp, {"config": config_text(case)}, res and res.get("config"), "the model accepts this configuration")
         return False
@@ -1684,6 +1789,20 @@ def compare_case(run, case, res, mline, mout):
         run.mismatch(comp, {"config": config_text(case)}, "no step output (rc=%s %s)" % (res.get("rc"), res.get("stderr", "")), mout)
         return False
     base = res["steps"][npre]
+    if case.get("restart"):
+        for b in case["biases"]:
+            if b["type"] == "abmd":
+                # the text state keeps 14 digits of the reference: when the warm-up step left the reference AT the variable, the
+                # loaded reference differs from it in the last digits and a force of that size appears; no verdict there
+                try:
+                    i_ = b["terms"][0][0]
+                    ref_ = abmd_ref(b, [p_["v%d" % i_][0] for p_ in pre_values(case, res, True)])
+                    x_ = base["cv"]["v%d" % i_][0]
+                    if abs(x_ - ref_) <= 1e-9 * max(1.0, abs(ref_)):
+                        run.dist("tie:restart-abmd-at-its-reference")
+                        return True
+                except Exception:
+                    pass
     if any("err=ok" not in ln for ln in res.get("script", [])):
         run.mismatch(comp, {"config": config_text(case), "events": event_lines(case)}, "a script call of the history failed: %r" % res.get("script"), mout)
         return False
@@ -1721,6 +1840,10 @@ def compare_case(run, case, res, mline, mout):
         af = (base.get("af") or {}).get("v%d" % i)
         maf = ma[mi:mi + n]
         asc = max([1.0] + [abs(t_) for t_ in maf])
+        if case.get("restart") and x:
+            # a text state keeps 14 digits of hill centres / references: for a variable of size |x| the loaded centre is off
+            # by 1e-14 |x|, and so is the force of a hill the variable sits exactly on
+            asc = max([asc] + [1e-3 * abs(t_) for t_ in x])
         if not af or len(af) != n or not all(close(a, b, TOL_TIE, asc) for a, b in zip(af, maf)):
             bad.append("applied force on v%d impl=%r model=%r" % (i, af, maf))
         mi += n
@@ -1762,7 +1885,7 @@ def check(run):
     model, exes = st
     vsim = exes["vsim_c01"]
 
-    opts = {"dummy": True, "center": True, "poly": True, "cell": True, "nofitgrad": True, "vec": 0.12, "pairs": 0.08, "hist": 0.2, "histr": 0.1, "events": 0.15, "moving": 0.1, "biases": ["harmonic", "harmonic", "walls", "linear"]}
+    opts = {"dummy": True, "center": True, "poly": True, "cell": True, "nofitgrad": True, "vec": 0.12, "pairs": 0.08, "hist": 0.2, "histr": 0.1, "events": 0.15, "moving": 0.1, "restart": 0.08, "biases": ["harmonic", "harmonic", "walls", "linear"]}
     kinds = T1 + T1 + T2
     ncases = 500 if quick else 40000
     cases = load_corpus()
@@ -1827,6 +1950,9 @@ def check(run):
             run.dist("bias:" + b["type"])
         if history_label(case):
             run.dist(history_label(case))
+        if case.get("restart"):
+            for b in case["biases"]:
+                run.dist("restart:%s:%s" % (b["type"], case["restart"]["fmt"]))
         for b in case["biases"]:
             if b.get("moving"):
                 run.dist("moving:%s:%s" % (b["type"], "centers" if b["moving"].get("tc") is not None else "forceConstant"))
@@ -1878,7 +2004,7 @@ def check(run):
     # ---- finite-difference sweep over configurations the model does not cover (a few per kind in the quick tier)
     if True:
         ur = V.rng("C01-unmodelled")
-        ucases = gen_unmodelled(ur, 195 if quick else 6000)
+        ucases = gen_unmodelled(ur, 207 if quick else 6000)
         ures = run_vsim(vsim, ucases)
         for case, res in zip(ucases, ures):
             name = case["name"]
@@ -1905,7 +2031,7 @@ def check(run):
                 run.dist("unmodelled-ambiguous:" + name)
             elif s == "fail":
                 sig = "fd:" + name
-                if name == "opes_frozen" and d["rel_err"] < 2e-3:
+                if name.startswith("opes_frozen") and d["rel_err"] < 2e-3:
                     # colvarbias_opes::evaluateKernel differentiates h*(exp(-d2/2) - c) as -val*d/sigma (the constant c is kept in
                     # the derivative: forces vanish continuously at the kernel cut-off); a larger discrepancy is a different defect
                     sig = "fd:opes_frozen:cutoff-term-omitted"
